@@ -5,30 +5,28 @@ import json, os, sys
 ROOT = os.path.dirname(os.path.dirname(os.path.abspath(__file__)))
 cs = [json.loads(l) for l in open(sys.argv[1] if len(sys.argv) > 1 else os.path.join(ROOT, "work/C04/cases_c04.jsonl"))]
 def first(pred): return next(c for c in cs if pred(c))
+# the former witnesses of the four repaired classes (they must now satisfy the oracle) and other directed cases
 picks = [
- ("w_K1_literal_backslash", first(lambda c: c["kind"] == "directed-K1-literal-backslash"), [1], False),
- ("w_K1_param_backslash", first(lambda c: c["kind"] == "directed-K1-param-backslash-literal-filter"), [1], False),
- ("w_K1_unicode_escape", first(lambda c: c["kind"] == "directed-K1-literal-unicode-escape"), [1], False),
- ("w_K2_default_quote", first(lambda c: c["kind"] == "default" and c["meta"]["default"] == "it's"), [2], False),
- ("w_K2_default_injection", first(lambda c: c["kind"] == "default" and c["meta"]["default"] == "' OR '1'='1"), [2], False),
- ("w_K3_capture", first(lambda c: c["kind"] == "shape" and c["obs"] == [0]), [3], False),
- ("w_K4_float_display", first(lambda c: c["kind"].startswith("float") and len(c["obs"]) == 5 and c["obs"][3] == 0), [4], False),
- ("w_ok_escaped_quote", first(lambda c: c["kind"] == "directed-literal-escaped-quote-ok"), [], True),
- ("w_ok_param_sql", first(lambda c: c["kind"] == "directed-param-sql"), [], True),
- ("w_ok_default_paired", first(lambda c: c["kind"] == "default" and c["meta"]["default"] == "dd"), [], True),
- ("w_ok_shape", first(lambda c: c["kind"] == "shape" and c["obs"] == [1] and "DROP" in c["meta"]["query"]), [], True),
+ ("w_K1_literal_backslash", first(lambda c: c["kind"] == "directed-K1-literal-backslash")),
+ ("w_K1_param_backslash", first(lambda c: c["kind"] == "directed-K1-param-backslash-literal-filter")),
+ ("w_K1_unicode_escape", first(lambda c: c["kind"] == "directed-K1-literal-unicode-escape")),
+ ("w_surrogate_pair", first(lambda c: c["kind"] == "directed-literal-surrogate-pair")),
+ ("w_lone_surrogate", first(lambda c: c["kind"] == "directed-literal-lone-high-surrogate")),
+ ("w_K2_default_quote", first(lambda c: c["kind"] == "default" and c["meta"]["default"] == "it's")),
+ ("w_K2_default_injection", first(lambda c: c["kind"] == "default" and c["meta"]["default"] == "' OR '1'='1")),
+ ("w_K3_capture", first(lambda c: c["kind"] == "shape" and '"dd"' in c["meta"]["query"] and "$dd" in c["meta"]["query"])),
+ ("w_K4_float_display", first(lambda c: c["kind"].startswith("float") and c["meta"]["value"] == "8.407903850944054e17")),
+ ("w_ok_escaped_quote", first(lambda c: c["kind"] == "directed-literal-escaped-quote-ok")),
+ ("w_ok_param_sql", first(lambda c: c["kind"] == "directed-param-sql")),
 ]
 out = ["(* C04Wit.v — closed witnesses: directed cases of harness/src/bin/c04.rs as Gallina terms, the model's verdict",
        "   checked by vm_compute.  The same cases are replayed on the real code on every run.",
        "   (snapshot of the harness output; regenerate with tools/c04_genwit.py if the directed cases change) *)",
        "From DV Require Import Run_C04.", "Open Scope Z_scope.", ""]
-for name, c, cl, ok in picks:
+for name, c in picks:
     out.append("(* %s : %s *)" % (c["kind"], json.dumps(c["meta"], ensure_ascii=True)[:300].replace("(*", "( *").replace("*)", "* )").replace('"', "'")))
     out.append("Definition %s : c04case := %s." % (name, c["coq"]))
-    if ok:
-        out.append("Lemma %s_ok : spec_C04 %s (run_C04 %s) = true /\\ known_C04 %s = []." % (name, name, name, name))
-    else:
-        out.append("Lemma %s_refuted : spec_C04 %s (run_C04 %s) = false /\\ known_C04 %s = [%s]." % (name, name, name, name, "; ".join(map(str, cl))))
+    out.append("Lemma %s_holds : spec_C04 %s (run_C04 %s) = true /\\ known_C04 %s = []." % (name, name, name, name))
     out.append("Proof. vm_compute. split; reflexivity. Qed.")
     out.append("")
 open(os.path.join(ROOT, "coq/proofs/C04Wit.v"), "w").write("\n".join(out))
